@@ -184,6 +184,9 @@ func (cat *Catalog) BuildKnowledgeBase() (*KnowledgeBase, error) {
 					return nil, err
 				}
 				dLen := binary.LittleEndian.Uint64(length)
+				if dLen > uint64(buffer.Len()) {
+					return nil, fmt.Errorf("string constant %s claims %d value bytes, only %d are present", amet.AstID, dLen, buffer.Len())
+				}
 				byteArr := make([]byte, dLen)
 				_, err = buffer.Read(byteArr)
 				if err != nil {
